@@ -53,6 +53,7 @@ def sideOk (dt : Datatype) (s : List Char) : Bool :=
   | .segNameGfa1 => !hasOrientComma s
   | .oidListGfa1 => (splitOn ',' s).all (fun e => Grammar.oid1.accepts e)
   | .customRecordType => !reservedRecordTypes.contains s
+  | .idGfa2 => s != ['*']          -- the placeholder is not an identifier where one is required
   | _ => true
 
 /-- is the encoded field accepted with validation on?  (JSON well-formedness of `J` and trace/
